@@ -56,11 +56,16 @@ CLAIMED = {
     'C05': (['Collector', 'MC_Collector', 'Trace_Collector'],
             "TLA+ spec Collector.tla (the work-list machine of the collector) model-checked with TLC over all object "
             "graphs within bounds (invariants CountBound, DepthBound, CollBound, BreadthFirst, LocalsFirst, liveness "
-            "Terminates); real collector runs on enumerated and random graphs validated against the machine by TLC",
+            "Terminates, FramesShareBudget for the frames below the paused one); real collector runs on enumerated and "
+            "random graphs, on multi-frame stacks (all_frame) and on two threads collecting concurrently validated against "
+            "the machine by TLC",
             "All graphs with <=3 nodes (sharing, cycles), all short locals orders and a grid of the four limits are "
             "checked exhaustively; every enumerated small instance (sampled in quick) and random instances up to 12 nodes "
             "are built as real objects, collected by the real agent and the projected table must equal the machine's "
-            "result (TLC trace validation, invariants evaluated on every state). The time budget is exercised in C02.",
+            "result (TLC trace validation, invariants evaluated on every state); the same for stacks with 1-3 further frames "
+            "(one table, one budget) and for two threads collecting at once with different limits under every "
+            "bounded-preemption schedule (a scheduling point at every rendering of an application object). The time "
+            "budget is exercised in C02.",
             TRUSTED + "; limits are set on the LocationAction config"),
     'C06': (['Collector', 'MC_Collector', 'Trace_Collector', 'Snapshot'],
             "TLA+ specs Collector.tla (hostile node kind: recorded, no children, machine continues) and Snapshot.tla "
@@ -74,7 +79,8 @@ CLAIMED = {
     'C07': (['Collector', 'MC_Collector', 'Trace_Collector'],
             "TLA+ spec Collector.tla with the watch phase (invariants Closed, OneIdPerObject, WatchClosed, WatchDedup, "
             "NoRepeatDescent, Terminates) model-checked with TLC; real collector runs with watches (normal and tiny watch "
-            "budget) validated against the machine by TLC; fresh-temporary and alias watches checked by value",
+            "budget) and with objects shared by several frames of the stack validated against the machine by TLC; "
+            "fresh-temporary and alias watches checked by value",
             "All graphs with <=3 nodes with arbitrary sharing/cycles and <=2 watches are model-checked; random graphs with "
             "1-3 watches are collected by the real agent with and without the budget being hit and the table + watch "
             "results must equal the machine's. Known finding: a watch on locals() dangles (listed).",
@@ -101,7 +107,8 @@ CLAIMED = {
             TRUSTED + "; tracepoints are installed before the program starts; limiter disabled via fire_count=-1"),
     'C15': (['Dispatch', 'MC_Dispatch', 'Trace_Dispatch'],
             "TLA+ spec Dispatch.tla (pending-callback stack per thread ident with ident reuse; invariants ExactlyOnce, "
-            "ClosedWhenInvocationEnds, SameThread, NothingLeft) model-checked with TLC incl. the TopOnly deviation; live "
+            "ClosedWhenInvocationEnds, SameThread, NothingLeft; the configuration may be replaced while work is pending) "
+            "model-checked with TLC incl. the TopOnly deviation; live "
             "runs with span and capture tracepoints logged (open/close per event, captured value vs the real result "
             "of the opening invocation) and validated by TLC on the property's window",
             "Exhaustive within bounds on the model; live runs cover recursion, nesting, generators, exception unwinding "
@@ -130,9 +137,10 @@ CLAIMED = {
     'C14': (['Lifecycle'],
             "TLA+ spec Lifecycle.tla (start/shutdown calls, NO_TRACE, pre-existing hooks, shutdown as a sequence of "
             "steps each of which may fail; invariants InstalledWhenStarted, NoTraceUntouched, RestoredExactly, "
-            "ShutdownCompletes, QuietAfter, action property StoppedAfterShutdown) model-checked with TLC incl. three "
+            "ShutdownCompletes, QuietAfter, action property StoppedAfterShutdown; the application replacing its hooks "
+            "between two lives of the agent) model-checked with TLC incl. four "
             "deviations; walks through its state graph replayed on a real Deep object with fakes, one thread per walk",
-            "The life-cycle state machine is exhaustively checked (3,016 states: every sequence of <=4 start/shutdown "
+            "The life-cycle state machine is exhaustively checked (~14,000 states: every sequence of <=4 start/shutdown "
             "calls x hooks x NO_TRACE x every failure subset); graph walks (all edges in thorough) are replayed on the "
             "real Deep with a fake channel, a real poll timer, pending failing deliveries and raising plugins, and the "
             "hooks / started flag / timer liveness / pending deliveries / plugin shutdown calls compared after every call.",
